@@ -1,2 +1,180 @@
-(* placeholder: statements are added when Proofs exist *)
+(* C08 — cfg_to_chomsky returns a valid grammar in Chomsky normal form that generates exactly the same language.
+   One statement per phase (postcondition + language preservation, stated with parse trees `yields`, which agree with
+   derivations: Proofs/CFGBasics.derives_yields), the auxiliary computations of nullable and unit-derivable
+   variables, the composition C08_to_chomsky (stated with `cfg_lang`, derivations on sentential forms), and totality.
+   Fresh variable names are taken from `stream` (Model/Chomsky.v); a phase returns None only if the stream is
+   exhausted or its next name is already a variable.
+   Definitions local to Proofs files, referred to qualified:
+     Proofs/ChomskyEpsUnitProofs.v:
+       `dropsub W x y`      y is obtained from x by deleting some occurrences of variables whose name is in W
+                            (inductive: ds_nil, ds_keep, ds_drop);
+       `unit_reach G A B`   transitive closure (at least one step, inductive `tc`) of
+                            `ustep G X Y := has_rule G X [Var Y] /\ In Y (gV G)`;
+       `names_disjoint G`   := forall x, In x (gV G) -> ~ In x (gSg G)   (no variable name is a terminal name; needed
+                            because the implementation's test `B in V` of phase 3 compares names);
+       `perm_order ordV`    := forall l, Permutation (ordV l) l            (iteration order of the set V).
+     Proofs/ChomskyFreshProofs.v:
+       `is_new G G' A`      := In A (gV G') /\ ~ In A (gV G).
+     Proofs/ChomskyFinal.v:
+       `chomsky_names_bound G` := let M := max 1 (maxlen (gR G)) in
+                                  1 + (S (length (gR G)) * 2 ^ M * S (S (length (gV G)))) * M + length (gSg G)
+                            where `maxlen R` is the maximal length of a right-hand side;
+       `need4 R`            := sum over the rules r of R of (length (rrhs r) - 2).
+   The hypothesis of C08_to_chomsky that no name of the stream is a terminal name cannot be dropped: take_fresh only
+   checks V, and with a start variable named like a terminal phase 3 changes the language
+   (C08_to_chomsky_needs_nonterminal_names).  `ids_consistent (gR G)` is not needed for the composition since phase 2
+   renumbers all alternatives. *)
 From GT Require Import Base.Prelude Model.CFG Model.Chomsky Model.CYK.
+From Coq Require Import Permutation.
+From GT Require Proofs.CFGBasics Proofs.ChomskyFreshProofs Proofs.ChomskyEpsUnitProofs Proofs.ChomskyFinal.
+
+(* ---- phase 1: new start variable ---- *)
+Theorem C08_phase1_new_start : forall (stream : list nat) (G G' : cfg) (rest : list nat),
+  cfg_wf G -> In (gS G) (gV G) -> add_start stream G = Some (G', rest) ->
+  cfg_wf G' /\ ~ In (gS G') (gV G) /\ gV G' = gV G ++ [gS G'] /\ gSg G' = gSg G /\
+  has_rule G' (gS G') [Var (gS G)] /\ (forall r x, In r (gR G') -> In x (rrhs r) -> x <> Var (gS G')) /\
+  (forall w, yields G' (Var (gS G')) w <-> yields G (Var (gS G)) w) /\
+  (forall A w, In A (gV G) -> (yields G' (Var A) w <-> yields G (Var A) w)).
+Proof. exact ChomskyFreshProofs.add_start_correct. Qed.
+
+(* ---- phase 2: epsilon rules ---- *)
+Theorem C08_nullable_exact : forall G : cfg,
+  exists W, cfg_nullable G = Some W /\ forall A, In A W <-> yields G (Var A) [].
+Proof. exact ChomskyEpsUnitProofs.cfg_nullable_correct. Qed.
+
+Theorem C08_expand_nullable : forall (x : list sym) (W : list nat) (y : list sym),
+  In y (expand_nullable x W) <-> ChomskyEpsUnitProofs.dropsub W x y.
+Proof. exact ChomskyEpsUnitProofs.expand_nullable_spec. Qed.
+
+Theorem C08_phase2_epsilon_rules : forall G G' : cfg, cfg_wf G -> remove_eps G = Some G' ->
+  cfg_wf G' /\ gV G' = gV G /\ gSg G' = gSg G /\ gS G' = gS G /\
+  (forall r, In r (gR G') -> rrhs r = [] -> rvar r = gS G') /\
+  (forall A w, w <> [] -> (yields G' (Var A) w <-> yields G (Var A) w)) /\
+  (yields G' (Var (gS G)) [] <-> yields G (Var (gS G)) []) /\
+  NoDup (map rid (gR G')).
+Proof. exact ChomskyEpsUnitProofs.remove_eps_correct. Qed.
+
+(* the rules of the new grammar *)
+Theorem C08_phase2_rules : forall (G : cfg) (W : list nat) (G' : cfg), cfg_nullable G = Some W -> remove_eps G = Some G' ->
+  forall A y, has_rule G' A y <->
+    exists x, has_rule G A x /\ ChomskyEpsUnitProofs.dropsub W x y /\ ~ (y = [] /\ In A W /\ A <> gS G).
+Proof. exact ChomskyEpsUnitProofs.remove_eps_rules. Qed.
+
+Theorem C08_phase2_sound_all : forall G G' : cfg, remove_eps G = Some G' -> forall s w, yields G' s w -> yields G s w.
+Proof. exact ChomskyEpsUnitProofs.remove_eps_sound_all. Qed.
+
+Theorem C08_phase2_total : forall G : cfg, remove_eps G <> None.
+Proof. exact ChomskyEpsUnitProofs.remove_eps_total. Qed.
+
+(* ---- phase 3: unit rules ---- *)
+Theorem C08_derivable_exact : forall (G : cfg) (A : nat), cfg_wf G -> ChomskyEpsUnitProofs.names_disjoint G ->
+  exists W, cfg_derivable G A = Some W /\ forall B, In B W <-> B <> A /\ ChomskyEpsUnitProofs.unit_reach G A B.
+Proof. exact ChomskyEpsUnitProofs.cfg_derivable_correct. Qed.
+
+Theorem C08_derivable_total : forall (G : cfg) (A : nat), cfg_derivable G A <> None.
+Proof. exact ChomskyEpsUnitProofs.cfg_derivable_total. Qed.
+
+Theorem C08_phase3_unit_rules : forall (ordV : list nat -> list nat) (G G' : cfg),
+  cfg_wf G -> ChomskyEpsUnitProofs.names_disjoint G -> ChomskyEpsUnitProofs.perm_order ordV -> elim_unit ordV G = Some G' ->
+  cfg_wf G' /\ gV G' = gV G /\ gSg G' = gSg G /\ gS G' = gS G /\
+  (forall r, In r (gR G') -> is_unit r = false) /\
+  (forall A w, yields G' (Var A) w <-> yields G (Var A) w) /\
+  (forall r, In r (gR G') -> rrhs r = [] ->
+     exists r0, In r0 (gR G) /\ rrhs r0 = [] /\ (rvar r0 = rvar r \/ ChomskyEpsUnitProofs.unit_reach G (rvar r) (rvar r0))) /\
+  (ids_consistent (gR G) -> ids_consistent (gR G')) /\
+  (* the set of rules does not depend on the iteration order *)
+  (forall ordV2 G2, ChomskyEpsUnitProofs.perm_order ordV2 -> elim_unit ordV2 G = Some G2 ->
+     forall A rhs, has_rule G' A rhs <-> has_rule G2 A rhs).
+Proof. exact ChomskyEpsUnitProofs.elim_unit_correct. Qed.
+
+Theorem C08_phase3_total : forall (ordV : list nat -> list nat) (G : cfg), elim_unit ordV G <> None.
+Proof. exact ChomskyEpsUnitProofs.elim_unit_total. Qed.
+
+(* ---- phase 4: rules of length two ---- *)
+Theorem C08_phase4_length_two : forall (stream : list nat) (G G' : cfg) (rest : list nat),
+  cfg_wf G -> ids_consistent (gR G) -> len_two stream G = Some (G', rest) ->
+  cfg_wf G' /\ gS G' = gS G /\ gSg G' = gSg G /\
+  (exists new, gV G' = gV G ++ new /\ NoDup new /\ forall x, In x new -> ~ In x (gV G)) /\
+  (forall r, In r (gR G') -> length (rrhs r) <= 2) /\
+  (forall A w, In A (gV G) -> (yields G' (Var A) w <-> yields G (Var A) w)) /\
+  (* nothing else changes: rules of length <= 2 are kept, no epsilon or unit rule is introduced *)
+  (forall r, In r (gR G') -> rrhs r = [] \/ (exists x, rrhs r = [x]) ->
+     exists r0, In r0 (gR G) /\ rvar r0 = rvar r /\ rrhs r0 = rrhs r) /\
+  (forall r0, In r0 (gR G) -> length (rrhs r0) <= 2 -> has_rule G' (rvar r0) (rrhs r0)).
+Proof. exact ChomskyFreshProofs.len_two_correct. Qed.
+
+Theorem C08_phase4_total : forall (stream : list nat) (G : cfg),
+  NoDup stream -> (forall x, In x stream -> ~ In x (gV G)) -> ChomskyFinal.need4 (gR G) <= length stream ->
+  exists G' rest used, len_two stream G = Some (G', rest) /\ stream = used ++ rest /\ gV G' = gV G ++ used /\
+                       length used <= ChomskyFinal.need4 (gR G).
+Proof. exact ChomskyFinal.len_two_total. Qed.
+
+(* ---- phase 5: terminals ---- *)
+Theorem C08_phase5_terminals : forall (stream : list nat) (G G' : cfg) (rest : list nat),
+  cfg_wf G -> elim_terminals stream G = Some (G', rest) ->
+  cfg_wf G' /\ gS G' = gS G /\ gSg G' = gSg G /\
+  (exists new, gV G' = gV G ++ new /\ NoDup new /\ forall x, In x new -> ~ In x (gV G)) /\
+  (forall r, In r (gR G') -> length (rrhs r) <= 1 \/ forallb is_var (rrhs r) = true) /\
+  (forall A w, In A (gV G) -> (yields G' (Var A) w <-> yields G (Var A) w)) /\
+  (* every rule of G' is T_a -> a for a new variable T_a, or an old rule in which, if its length is >= 2, each
+     terminal is replaced by a new variable; rules of length <= 1 are unchanged *)
+  (forall r', In r' (gR G') ->
+     (exists a, ChomskyFreshProofs.is_new G G' (rvar r') /\ rrhs r' = [Tm a]) \/
+     (exists r, In r (gR G) /\ rvar r' = rvar r /\
+        ((length (rrhs r) <= 1 /\ rrhs r' = rrhs r) \/
+         (2 <= length (rrhs r) /\
+          Forall2 (fun x x' => (is_var x = true /\ x' = x) \/
+                               (exists a A, x = Tm a /\ x' = Var A /\ ChomskyFreshProofs.is_new G G' A))
+                  (rrhs r) (rrhs r'))))).
+Proof. exact ChomskyFreshProofs.elim_terminals_correct. Qed.
+
+Theorem C08_phase5_total : forall (stream : list nat) (G : cfg),
+  cfg_wf G -> NoDup stream -> (forall x, In x stream -> ~ In x (gV G)) ->
+  length (gSg G) <= length stream -> elim_terminals stream G <> None.
+Proof. exact ChomskyFinal.elim_terminals_total. Qed.
+
+(* ---- cfg_to_chomsky ---- *)
+Theorem C08_to_chomsky : forall (ordV : list nat -> list nat) (stream : list nat) (G G' : cfg) (rest : list nat),
+  cfg_wf G -> ChomskyEpsUnitProofs.names_disjoint G -> In (gS G) (gV G) -> ChomskyEpsUnitProofs.perm_order ordV ->
+  (forall x, In x stream -> ~ In x (gSg G)) ->
+  to_chomsky ordV stream G = Some (G', rest) ->
+  cfg_wf G' /\ is_chomsky G' /\ gSg G' = gSg G /\
+  (exists new, gV G' = gV G ++ new /\ NoDup new /\ forall x, In x new -> ~ In x (gV G)) /\
+  forall w, cfg_lang G' w <-> cfg_lang G w.
+Proof. exact ChomskyFinal.to_chomsky_correct. Qed.
+
+(* the conversion can only fail by running out of fresh names or being handed a name that is not fresh *)
+Theorem C08_to_chomsky_total : forall (ordV : list nat -> list nat) (stream : list nat) (G : cfg),
+  cfg_wf G -> ChomskyEpsUnitProofs.names_disjoint G -> In (gS G) (gV G) -> ChomskyEpsUnitProofs.perm_order ordV ->
+  (forall x, In x stream -> ~ In x (gSg G)) ->
+  NoDup stream -> (forall x, In x stream -> ~ In x (gV G)) ->
+  ChomskyFinal.chomsky_names_bound G <= length stream ->
+  to_chomsky ordV stream G <> None.
+Proof. exact ChomskyFinal.to_chomsky_total. Qed.
+
+(* a fresh start variable that has the name of a terminal changes the language *)
+Theorem C08_to_chomsky_needs_nonterminal_names :
+  exists ordV stream G G' rest,
+    cfg_wf G /\ ChomskyEpsUnitProofs.names_disjoint G /\ In (gS G) (gV G) /\ ChomskyEpsUnitProofs.perm_order ordV /\
+    ids_consistent (gR G) /\ NoDup stream /\ (forall x, In x stream -> ~ In x (gV G)) /\
+    to_chomsky ordV stream G = Some (G', rest) /\ exists w, cfg_lang G' w /\ ~ cfg_lang G w.
+Proof. exact ChomskyFinal.to_chomsky_needs_nonterminal_names. Qed.
+
+Print Assumptions C08_phase1_new_start.
+Print Assumptions C08_nullable_exact.
+Print Assumptions C08_expand_nullable.
+Print Assumptions C08_phase2_epsilon_rules.
+Print Assumptions C08_phase2_rules.
+Print Assumptions C08_phase2_sound_all.
+Print Assumptions C08_phase2_total.
+Print Assumptions C08_derivable_exact.
+Print Assumptions C08_derivable_total.
+Print Assumptions C08_phase3_unit_rules.
+Print Assumptions C08_phase3_total.
+Print Assumptions C08_phase4_length_two.
+Print Assumptions C08_phase4_total.
+Print Assumptions C08_phase5_terminals.
+Print Assumptions C08_phase5_total.
+Print Assumptions C08_to_chomsky.
+Print Assumptions C08_to_chomsky_total.
+Print Assumptions C08_to_chomsky_needs_nonterminal_names.
